@@ -296,6 +296,7 @@ fn main() {
                     2 => run_n::<2>(kind, c),
                     3 => run_n::<3>(kind, c),
                     4 => run_n::<4>(kind, c),
+                    8 => run_n::<8>(kind, c),
                     _ => panic!("unsupported carrier size {n}"),
                 }
             };
